@@ -775,12 +775,14 @@ SEQ_LEVEL = {"trim_stop_codons": "trim_stop_codon", "get_translation": "get_tran
 def r12_19(chk):
     chk.rule("R12.19", "an option means the same at every entry point: a collection / alignment method that delegates to the per-sequence method of the same purpose (trim_stop_codons -> trim_stop_codon, get_translation -> get_translation, has_terminal_stop -> has_terminal_stop) hands every option the two have in common to it unchanged -- dropped, the per-sequence default applies (strict=False: a non-modulo-3 sequence after one with a stop is silently accepted); hard-wired, the caller's choice is ignored (incomplete_ok=True: '???' instead of an error)")
     seq_params = {}
+    seq_order = {}
     for rel in ("core/sequence.py", "core/new_sequence.py"):
         sm = chk.repo.module(rel)
         for q, fn in sm.all_functions():
             nm = q.split(".")[-1]
             if nm in SEQ_LEVEL.values():
                 seq_params.setdefault((rel.startswith("core/new"), nm), set()).update(params_of(fn))
+                seq_order.setdefault((rel.startswith("core/new"), nm), [p_ for p_ in params_of(fn) if p_ != "self"])
     n = 0
     for rel in ("core/alignment.py", "core/new_alignment.py"):
         m = chk.repo.module(rel)
@@ -797,9 +799,11 @@ def r12_19(chk):
                 for kw in c.keywords:
                     if kw.arg:
                         passed[kw.arg] = kw.value
-                # positional arguments map onto the per-sequence parameter order only for `gc` (first)
-                if c.args and isinstance(c.args[0], ast.Name):
-                    passed.setdefault(c.args[0].id, c.args[0])
+                # positional arguments map onto the per-sequence method's parameter order
+                for pos, a_ in enumerate(c.args):
+                    order = seq_order.get((new, target), [])
+                    if pos < len(order):
+                        passed.setdefault(order[pos], a_)
                 for p_ in sorted(common):
                     n += 1
                     v = passed.get(p_)
